@@ -373,6 +373,184 @@ class ConstEval:
             return self._call(node, mod, cls, env)
         raise NotConst(type(node).__name__)
 
+    # -------------------------------------------------------------- statement interpreter (pure table builders)
+    _FRESH_NODES = (ast.Dict, ast.List, ast.Set, ast.ListComp, ast.SetComp, ast.DictComp, ast.GeneratorExp)
+    _MUTATORS = {'append', 'extend', 'add', 'update', 'setdefault', 'insert', 'discard', 'sort', 'reverse'}
+    STEP_LIMIT = 200000
+
+    def _run_function(self, fi, args, kwargs):
+        """Interpret a side-effect-free kernpy function on concrete arguments: assignments to locals, loops, tests, in-place
+        changes of containers created in this activation, return.  Anything else is NotConst.  No repository code runs."""
+        import copy as _copy
+        if kwargs is None:
+            raise NotConst('** call')
+        a_ = fi.node.args
+        if a_.vararg or a_.kwarg:
+            raise NotConst('variadic function')
+        if any(isinstance(n, (ast.Yield, ast.YieldFrom, ast.Await, ast.Global, ast.Nonlocal)) for n in ast.walk(fi.node)):
+            raise NotConst('generator / global state')
+        pos = [x.arg for x in a_.posonlyargs + a_.args]
+        if len(args) > len(pos):
+            raise NotConst('arity')
+        env = {}
+        dflt = dict(zip(pos[len(pos) - len(a_.defaults):], a_.defaults)) if a_.defaults else {}
+        for x, d in zip(a_.kwonlyargs, a_.kw_defaults):
+            if d is not None:
+                dflt[x.arg] = d
+        names = pos + [x.arg for x in a_.kwonlyargs]
+        for n_, v in zip(pos, args):
+            env[n_] = v
+        for k, v in kwargs.items():
+            if k not in names or k in env:
+                raise NotConst('keyword binding')
+            env[k] = v
+        for n_ in names:
+            if n_ not in env:
+                if n_ not in dflt:
+                    raise NotConst('missing argument')
+                env[n_] = self.eval(dflt[n_], fi.module, fi.cls, {})
+        key = ('run', fi.qualname, repr(sorted((k, repr(v)[:200]) for k, v in env.items())))
+        st = {'steps': 0, 'fresh': set(), 'keep': []}
+
+        def run():
+            sig, val = self._run_block(fi.node.body, fi, env, st)
+            if sig in ('break', 'continue'):
+                raise NotConst('loop control outside a loop')
+            try:
+                return _copy.deepcopy(val) if sig == 'return' else None
+            except Exception:
+                return val
+        return self._guard(key, run)
+
+    def _fresh(self, st, node, val):
+        if isinstance(node, self._FRESH_NODES) or (isinstance(node, ast.Call) and isinstance(node.func, ast.Name)
+                                                   and node.func.id in ('dict', 'list', 'set', 'sorted', 'OrderedDict')):
+            st['fresh'].add(id(val))
+            st['keep'].append(val)
+
+    def _run_block(self, body, fi, env, st):
+        mod, cls = fi.module, fi.cls
+        ev = lambda n: self.eval(n, mod, cls, env)
+        for s_ in body:
+            st['steps'] += 1
+            if st['steps'] > self.STEP_LIMIT:
+                raise NotConst('step limit')
+            if isinstance(s_, ast.Pass):
+                continue
+            if isinstance(s_, ast.Expr):
+                v = s_.value
+                if isinstance(v, ast.Constant):
+                    continue
+                if isinstance(v, ast.Call) and isinstance(v.func, ast.Attribute) and v.func.attr in self._MUTATORS and not v.keywords:
+                    obj = ev(v.func.value)
+                    if id(obj) not in st['fresh']:
+                        raise NotConst(f'in-place change of an object the function did not create: {ast.unparse(v)[:60]}')
+                    if not isinstance(obj, (list, dict, set)) or not hasattr(obj, v.func.attr):
+                        raise NotConst('mutator on ' + type(obj).__name__)
+                    try:
+                        getattr(obj, v.func.attr)(*[ev(a) for a in v.args])
+                    except NotConst:
+                        raise
+                    except Exception as e:
+                        raise NotConst(f'{v.func.attr} failed: {e}')
+                    continue
+                raise NotConst('expression statement ' + ast.unparse(v)[:60])
+            if isinstance(s_, (ast.Assign, ast.AnnAssign)):
+                if isinstance(s_, ast.AnnAssign) and s_.value is None:
+                    continue
+                val = ev(s_.value)
+                self._fresh(st, s_.value, val)
+                for t in (s_.targets if isinstance(s_, ast.Assign) else [s_.target]):
+                    self._store(t, val, fi, env, st)
+                continue
+            if isinstance(s_, ast.AugAssign):
+                if type(s_.op) not in _BINOPS:
+                    raise NotConst('augmented operator')
+                cur = ev(s_.target) if isinstance(s_.target, (ast.Name, ast.Subscript)) else None
+                if cur is None and not isinstance(s_.target, (ast.Name, ast.Subscript)):
+                    raise NotConst('augmented target')
+                try:
+                    new = _BINOPS[type(s_.op)](cur, ev(s_.value))      # a new object: `x += [..]` on a shared list is not aliased
+                except NotConst:
+                    raise
+                except Exception as e:
+                    raise NotConst(f'augmented assignment failed: {e}')
+                if isinstance(new, (list, dict, set)):
+                    st['fresh'].add(id(new)); st['keep'].append(new)
+                self._store(s_.target, new, fi, env, st)
+                continue
+            if isinstance(s_, ast.If):
+                sig, val = self._run_block(s_.body if ev(s_.test) else s_.orelse, fi, env, st)
+                if sig:
+                    return sig, val
+                continue
+            if isinstance(s_, ast.For):
+                broke = False
+                for item in self._iter(ev(s_.iter)):
+                    self._store(s_.target, item, fi, env, st)
+                    sig, val = self._run_block(s_.body, fi, env, st)
+                    if sig == 'return':
+                        return sig, val
+                    if sig == 'break':
+                        broke = True
+                        break
+                if not broke and s_.orelse:
+                    sig, val = self._run_block(s_.orelse, fi, env, st)
+                    if sig:
+                        return sig, val
+                continue
+            if isinstance(s_, ast.While):
+                broke = False
+                while ev(s_.test):
+                    st['steps'] += 1
+                    if st['steps'] > self.STEP_LIMIT:
+                        raise NotConst('step limit')
+                    sig, val = self._run_block(s_.body, fi, env, st)
+                    if sig == 'return':
+                        return sig, val
+                    if sig == 'break':
+                        broke = True
+                        break
+                if not broke and s_.orelse:
+                    sig, val = self._run_block(s_.orelse, fi, env, st)
+                    if sig:
+                        return sig, val
+                continue
+            if isinstance(s_, ast.Return):
+                return 'return', (ev(s_.value) if s_.value is not None else None)
+            if isinstance(s_, ast.Break):
+                return 'break', None
+            if isinstance(s_, ast.Continue):
+                return 'continue', None
+            if isinstance(s_, ast.Assert):
+                if not ev(s_.test):
+                    raise NotConst('assertion of the interpreted function fails')
+                continue
+            raise NotConst('statement ' + type(s_).__name__)
+        return None, None
+
+    def _store(self, t, val, fi, env, st):
+        if isinstance(t, ast.Name):
+            env[t.id] = val
+        elif isinstance(t, (ast.Tuple, ast.List)):
+            vals = list(val)
+            if len(vals) != len(t.elts) or any(isinstance(e, ast.Starred) for e in t.elts):
+                raise NotConst('unpack')
+            for e, v in zip(t.elts, vals):
+                self._store(e, v, fi, env, st)
+        elif isinstance(t, ast.Subscript) and not isinstance(t.slice, ast.Slice):
+            obj = self.eval(t.value, fi.module, fi.cls, env)
+            if id(obj) not in st['fresh'] or not isinstance(obj, (list, dict)):
+                raise NotConst('item store into an object the function did not create')
+            try:
+                obj[self.eval(t.slice, fi.module, fi.cls, env)] = val
+            except NotConst:
+                raise
+            except Exception as e:
+                raise NotConst(f'item store failed: {e}')
+        else:
+            raise NotConst('store target')
+
     def _str(self, v):
         if isinstance(v, EnumMember):
             return v.name
@@ -425,7 +603,8 @@ class ConstEval:
     def _call(self, node: ast.Call, mod, cls, env):
         ev = lambda n: self.eval(n, mod, cls, env)
         f = node.func
-        if node.keywords and not (isinstance(f, ast.Name) and f.id in ('sorted', 'dict')):
+        if node.keywords and not (isinstance(f, ast.Name) and f.id in ('sorted', 'dict')) \
+                and not (isinstance(f, ast.Name) and f.id not in env and getattr(self.prog.resolve(mod, f.id), 'kind', None) == 'def'):
             raise NotConst('keyword call')
         if isinstance(f, ast.Name) and f.id == 'isinstance' and f.id not in env and len(node.args) == 2 and not node.keywords:
             types = {'int': int, 'str': str, 'bool': bool, 'float': float, 'list': list, 'tuple': tuple, 'set': set, 'dict': dict,
@@ -453,14 +632,14 @@ class ConstEval:
                     return _SAFE_BUILTINS[f.id](*args, **kw)
                 except Exception as e:
                     raise NotConst(f'{f.id} failed: {e}')
-            if b is not None and b.kind == 'def' and not node.keywords and not b.value.decorators:
+            if b is not None and b.kind == 'def' and not b.value.decorators:
                 # a kernpy function that is local bindings + ONE returned expression: interpreted, never run
                 fi = b.value
                 body = list(fi.node.body)
                 if body and isinstance(body[0], ast.Expr) and isinstance(body[0].value, ast.Constant) and isinstance(body[0].value.value, str):
                     body = body[1:]
                 a_ = fi.node.args
-                if body and isinstance(body[-1], ast.Return) and body[-1].value is not None and not (a_.vararg or a_.kwarg or a_.kwonlyargs) \
+                if body and not node.keywords and isinstance(body[-1], ast.Return) and body[-1].value is not None and not (a_.vararg or a_.kwarg or a_.kwonlyargs) \
                         and len(node.args) == len(a_.posonlyargs + a_.args) \
                         and all(isinstance(st, ast.Assign) and len(st.targets) == 1 and isinstance(st.targets[0], ast.Name) for st in body[:-1]):
                     e2 = dict(zip([x.arg for x in a_.posonlyargs + a_.args], [ev(x) for x in node.args]))
@@ -470,6 +649,10 @@ class ConstEval:
                             e2[st.targets[0].id] = self.eval(st.value, fi.module, fi.cls, e2)
                         return self.eval(body[-1].value, fi.module, fi.cls, e2)
                     return self._guard(key, run)
+                # any other pure table-building function (loops, local containers filled in place): interpreted statement by
+                # statement by the checker (bounded; only objects created in the activation may be changed)
+                return self._run_function(fi, [ev(x) for x in node.args], {k.arg: ev(k.value) for k in node.keywords if k.arg}
+                                          if all(k.arg for k in node.keywords) else None)
             if b is not None and b.kind == 'external' and b.value in ('copy.deepcopy', 'copy.copy'):
                 return ev(node.args[0])
             if b is not None and b.kind == 'external' and b.value in ('collections.OrderedDict',):
